@@ -42,6 +42,7 @@ def memoryReview : List (String × String) := [
   ("x/oracle/keeper:var:agc:ptr", "nil → GetAggregatorContext builds it (recache / init)"),
   ("x/oracle/keeper:var:agcCheckTx:ptr", "nil at every block boundary (ResetAggregatorContextCheckTx in EndBlock)"),
   ("x/oracle/keeper:var:cs:ptr", "nil → GetCaches + ResetCaches in GetAggregatorContext"),
+  ("x/oracle/keeper:var:errBalanceChangeTooShort:value", "constant (an error value, never written after package initialisation)"),
   ("x/oracle/keeper:var:maxEffectiveBalance:value", "constant"),
   ("x/oracle/keeper:var:updatedFeederIDs:slice", "nil at every block boundary (ResetUpdatedFeederIDs in EndBlock); feeds an event only"),
   ("x/oracle:var:once:value", "fresh in a new process: BeginBlock initialises the singletons")]
